@@ -158,6 +158,23 @@ def run_sequence(env, sink, cash, cfg, seq):
         if pre is None or not close(e.context_pre.nlv, pre):
             msgs.append("entry %d: recorded pre-trade NLV %r, replaying recorded trades/interest against the quote history gives %r"
                         % (k, e.context_pre.nlv, pre))
+        # the pre-trade snapshot must describe the account BEFORE this entry's trades
+        for c, (q, B) in led.pos.items():
+            if not close(e.context_pre.nr_contracts.get(c, 0.0), q):
+                msgs.append("entry %d: recorded PRE-trade holding of %s is %r, ledger (before this entry's trades) %r"
+                            % (k, c, e.context_pre.nr_contracts.get(c, 0.0), q))
+            if pre and abs(q) > 1e-12:
+                p0 = liq_at(env, c, q, e.time)
+                if not close(e.context_pre.weights.get(c, 0.0), q * p0 * c.multiplier / pre):
+                    msgs.append("entry %d: recorded PRE-trade weight of %s is %r, ledger %r"
+                                % (k, c, e.context_pre.weights.get(c, 0.0), q * p0 * c.multiplier / pre))
+                if not close(e.context_pre.margins.get(c, 0.0), c.margin_requirement * c.multiplier * abs(q) * p0):
+                    msgs.append("entry %d: recorded PRE-trade margin of %s is %r, ledger %r"
+                                % (k, c, e.context_pre.margins.get(c, 0.0), c.margin_requirement * c.multiplier * abs(q) * p0))
+        pre_held = {c for c, v in e.context_pre.nr_contracts.items() if v != 0 and not isinstance(c, Cash)}
+        ghost_pre = [c for c in pre_held if abs(led.pos.get(c, [0.0])[0]) < 1e-12]
+        if ghost_pre:
+            msgs.append("entry %d: PRE-trade snapshot holds %r, which the account did not hold before this entry's trades" % (k, ghost_pre))
         spread_cost = 0.0
         comm = 0.0
         for t in e.trades:
